@@ -1,6 +1,186 @@
-From Coq Require Import ZArith List Bool Lia.
-From NV Require Import Base.Bytes C16.Tables C16.Model C16.Lemmas.
+(* C16/Props.v — property theorems only.  Property C16: tractograms round-trip through TRK and
+   TCK in RAS+ mm.  Each theorem is closed by `exact <lemma>` (or by vm_compute on a witness
+   for a refutation) and followed by Print Assumptions. *)
+From Coq Require Import ZArith QArith List Bool Lia.
+From NV Require Import Base.Bytes C16.Tables C16.Model C16.ModelAffine
+  C16.Lemmas C16.LemmasTrk C16.LemmasTckHdr C16.LemmasAffine.
 Import ListNotations.
 Open Scope Z_scope.
-Example C16_nonvacuous : ndigits 100 = 3.
-Proof. vm_compute; reflexivity. Qed.
+
+(* ---- tables of the imported code are well-formed (re-proved whenever they change) *)
+Definition offs0 : trk_offs :=
+  match trk_offs_now with Some o => o | None => mkOffs 0 0 0 0 0 0 0 0 0 0 0 0 0 end.
+Theorem C16_tables_wf :
+  offs_of_layout trk_layout = Some offs0 /\ wf_offs offs0 = true /\ trk_header_size = 1000
+  /\ triples_of false tck_fiber_delim = [nan_delim3] /\ triples_of false tck_eof_delim = [inf_delim3]
+  /\ nan3 nan_delim3 = true /\ nan3 inf_delim3 = false /\ inf3 inf_delim3 = true.
+Proof. vm_compute. repeat split; reflexivity. Qed.
+Print Assumptions C16_tables_wf.
+
+(* ---- TCK header: the self-referential data offset.  X = length of everything but the digits
+   of the offset; for EVERY X > 0 the number written, X + d2, has exactly d2 digits, i.e. it
+   is the real length of the header *)
+Theorem C16_tck_offset_fixpoint : forall X, 0 < X ->
+  let d1 := ndigits X in let d2 := ndigits (X + d1) in ndigits (X + d2) = d2.
+Proof. exact tck_offset_fixpoint. Qed.
+Print Assumptions C16_tck_offset_fixpoint.
+
+(* ... and so every header _write_header produces, whatever its fields, says "file: . N" with
+   N its own length in bytes *)
+Theorem C16_tck_header_states_its_length : forall count items h, tck_header count items = Ok h ->
+  h = (tck_magic ++ 10 :: join_nl (tck_lines count items))
+      ++ 10 :: S_file_dot ++ dec_str (zlen h) ++ 10 :: S_END ++ [10].
+Proof. exact tck_header_form. Qed.
+Print Assumptions C16_tck_header_states_its_length.
+
+(* ---- the chunked reader equals the one-buffer reader on EVERY byte string (valid or not,
+   either byte order) for every buffer that is a positive multiple of one point *)
+Theorem C16_chunk_independent : forall be B f, 12 <= B -> B mod 12 = 0 ->
+  tck_read_data be B f = tck_read_all be f.
+Proof. exact chunk_independent. Qed.
+Print Assumptions C16_chunk_independent.
+
+Theorem C16_buffer_size_adjusted : forall b, 0 <= b -> 12 <= tck_bufsize b /\ tck_bufsize b mod 12 = 0.
+Proof. exact tck_bufsize_ok. Qed.
+Print Assumptions C16_buffer_size_adjusted.
+
+(* ---- TCK round trip, exact (bit patterns), any tractogram of non-empty streamlines without an
+   all-NaN point, any header fields that are plain "key: value" text, any buffer size: what save
+   writes is header ++ data and load returns the streamlines, same number, same order *)
+Theorem C16_tck_roundtrip : forall count0 items sl b,
+  0 <= count0 < 10 ^ 10 -> zlen sl < 10 ^ 10 -> wf_items items -> Forall wf_stream sl -> 0 <= b ->
+  (exists h0, tck_header count0 items = Ok h0) ->
+  exists f h, tck_header (zlen sl) items = Ok h /\ tck_save count0 items sl = Ok f /\ f = h ++ tck_data sl
+              /\ tck_load b f = Ok sl.
+Proof. exact tck_file_roundtrip'. Qed.
+Print Assumptions C16_tck_roundtrip.
+
+(* ---- TRK round trip (structure): for any header layout satisfying wf_offs (in particular the
+   imported one, C16_tables_wf), any position of the file object, any tractogram of non-empty
+   streamlines with named scalar/property columns: same number of streamlines in the same order,
+   every stored bit pattern (voxmm points, scalars, properties) as written, and each name mapped
+   to its own columns.  The float arithmetic between RAS+mm and voxmm is outside this theorem. *)
+Theorem C16_trk_roundtrip_struct : forall o u skeys pkeys sl pre,
+  wf_offs o = true -> wf_user u -> sl <> [] -> zlen sl < 2 ^ 31 ->
+  Forall wf_key skeys -> Forall wf_key pkeys ->
+  NoDup (map fst skeys) -> NoDup (map fst pkeys) -> zlen skeys <= 10 -> zlen pkeys <= 10 ->
+  widths skeys < 2 ^ 15 -> widths pkeys < 2 ^ 15 ->
+  Forall (wf_tstream (widths skeys) (widths pkeys)) sl ->
+  exists bytes,
+    trk_save o (mkF (zlen pre) pre) u skeys pkeys sl = Ok bytes /\
+    trk_load o (zlen pre) bytes
+    = Ok (mkInfo false (zlen sl) (widths skeys) (widths pkeys) (slices_of skeys 0) (slices_of pkeys 0), sl).
+Proof. exact trk_roundtrip_struct. Qed.
+Print Assumptions C16_trk_roundtrip_struct.
+
+(* ---- IDEAL ARITHMETIC (over Q): for all 48 header voxel orders x all 48 orientations of
+   vox_to_ras, any non-zero voxel sizes, any dimensions, any invertible vox_to_ras, the
+   trackvis->RAS+mm affine is defined, invertible, and to_rasmm . to_trackvis = id both ways *)
+Theorem C16_affine_inverse_ideal : forall vs dims oh oa V,
+  In oh all_ornts -> In oa all_ornts ->
+  ~ (fst (fst vs) == 0)%Q -> ~ (snd (fst vs) == 0)%Q -> ~ (snd vs == 0)%Q -> ~ (aff_det V == 0)%Q ->
+  exists T Ti, to_rasmm vs dims oh oa V = Some T /\ to_trackvis vs dims oh oa V = Some Ti
+    /\ aff_eq (aff_mul T Ti) aff_id /\ aff_eq (aff_mul Ti T) aff_id
+    /\ (forall p, pt_eq (aff_apply T (aff_apply Ti p)) p)
+    /\ (forall p, pt_eq (aff_apply Ti (aff_apply T p)) p).
+Proof. exact affine_inverse_ideal. Qed.
+Print Assumptions C16_affine_inverse_ideal.
+
+Theorem C16_orders_are_the_48_orientations :
+  length all_orders = 48%nat /\
+  forall c o, In c all_orders -> order_ornt c = Some o -> In o all_ornts.
+Proof. split; [apply orders_are_ornts|exact order_ornt_in]. Qed.
+Print Assumptions C16_orders_are_the_48_orientations.
+
+(* ---- file position.  FULL STATEMENT: after load (eager, or lazy followed by any number of
+   complete passes) from a file object at position p the position is p.
+   Proved: eager load, TCK and TRK (position and bytes unchanged).
+   Lazy load: the bytes are unchanged and complete passes never move the position, BUT load
+   itself leaves it after the first streamline record (TRK) / first buffer (TCK) whenever the
+   file holds a streamline: LazyTractogram.from_data_func peeks with next(data_func()) and
+   drops the suspended generator, so _read's final seek is never reached (finding S-C16b). *)
+Theorem C16_position_restored_partial :
+  (forall b iters f r f', tck_session b false iters f = Ok (r, f') -> fpos f' = fpos f /\ fbytes f' = fbytes f)
+  /\ (forall o iters f r f', trk_session o false iters f = Ok (r, f') -> fpos f' = fpos f /\ fbytes f' = fbytes f)
+  /\ (forall b f n r f', tck_session b true n f = Ok (r, f') ->
+        fbytes f' = fbytes f /\ forall m r2 f2, tck_session b true m f = Ok (r2, f2) -> fpos f2 = fpos f')
+  /\ (forall o f n r f', trk_session o true n f = Ok (r, f') ->
+        fbytes f' = fbytes f /\ forall m r2 f2, trk_session o true m f = Ok (r2, f2) -> fpos f2 = fpos f').
+Proof.
+  split; [exact tck_session_eager|]. split; [exact trk_session_eager|].
+  split; [exact tck_session_lazy_stable|exact trk_session_lazy_stable].
+Qed.
+Print Assumptions C16_position_restored_partial.
+
+Definition one_tck : list (list triple) := [[(1065353216, 0, 3212836864)]].
+Definition one_trk : list trk_stream := [mkStream [[1065353216; 0; 3212836864]] []].
+Definition user0 : trk_user :=
+  mkUser [1; 1; 1] [1065353216; 1065353216; 1065353216] [0; 0; 0]
+         [1065353216; 0; 0; 0; 0; 1065353216; 0; 0; 0; 0; 1065353216; 0; 0; 0; 0; 1065353216] [82; 65; 83] 0 0 0.
+
+Theorem C16_position_lazy_refuted :
+  (exists bytes r f', Forall wf_stream one_tck /\ tck_save 0 [] one_tck = Ok bytes
+     /\ tck_session 4194304 true 2 (mkF 0 bytes) = Ok (r, f') /\ fpos f' = zlen bytes /\ fpos f' <> 0)
+  /\ (exists bytes r f', trk_save offs0 (mkF 0 []) user0 [] [] one_trk = Ok bytes
+     /\ trk_session offs0 true 2 (mkF 0 bytes) = Ok (r, f') /\ fpos f' = 1016 /\ fpos f' <> 0).
+Proof.
+  split.
+  - eexists; eexists; eexists. split; [|split; [vm_compute; reflexivity|split; [vm_compute; reflexivity|split; [vm_compute; reflexivity|vm_compute; discriminate]]]].
+    repeat constructor; try discriminate; cbn; lia.
+  - eexists; eexists; eexists. split; [vm_compute; reflexivity|split; [vm_compute; reflexivity|split; [vm_compute; reflexivity|vm_compute; discriminate]]].
+Qed.
+Print Assumptions C16_position_lazy_refuted.
+
+(* ---- non-vacuity: concrete non-trivial instances meet the hypotheses *)
+Example C16_tck_nonvacuous :
+  let items := [([99; 111; 109; 109; 101; 110; 116], [104; 105; 32; 116; 104; 101; 114; 101])] in
+  let sl := [[(1065353216, 2143289345, 4286578688); (0, 2147483648, 1)]; [(2139095040, 2139095040, 2139095040)]] in
+  wf_items items /\ Forall wf_stream sl /\ (exists h0, tck_header 7 items = Ok h0)
+  /\ (forall b, 0 <= b -> exists f h, tck_header (zlen sl) items = Ok h /\ tck_save 7 items sl = Ok f
+                                  /\ f = h ++ tck_data sl /\ tck_load b f = Ok sl).
+Proof.
+  cbv zeta.
+  assert (W : wf_items [([99; 111; 109; 109; 101; 110; 116], [104; 105; 32; 116; 104; 101; 114; 101])]).
+  { unfold wf_items. vm_compute kept. constructor; [|constructor]. split; clean_lit. }
+  assert (S : Forall wf_stream [[(1065353216, 2143289345, 4286578688); (0, 2147483648, 1)]; [(2139095040, 2139095040, 2139095040)]]).
+  { repeat constructor; try discriminate; cbn; lia. }
+  assert (H0 : exists h0, tck_header 7 [([99; 111; 109; 109; 101; 110; 116], [104; 105; 32; 116; 104; 101; 114; 101])] = Ok h0).
+  { eexists. vm_compute. reflexivity. }
+  split; [exact W|]. split; [exact S|]. split; [exact H0|].
+  intros b Hb. apply tck_file_roundtrip'; try assumption; cbn; lia.
+Qed.
+
+Example C16_trk_nonvacuous :
+  let skeys := [([102; 97], 1); ([99; 111; 108], 3)] in
+  let pkeys := [([119], 2)] in
+  let sl := [mkStream [[1; 2; 3; 4; 5; 6; 7]; [8; 9; 10; 11; 12; 13; 14]] [15; 16];
+             mkStream [[21; 22; 23; 24; 25; 26; 2143289344]] [4286578688; 0]] in
+  wf_offs offs0 = true /\ wf_user user0 /\ Forall wf_key skeys /\ Forall wf_key pkeys
+  /\ Forall (wf_tstream (widths skeys) (widths pkeys)) sl
+  /\ exists bytes, trk_save offs0 (mkF 3 [9; 9; 9]) user0 skeys pkeys sl = Ok bytes
+       /\ trk_load offs0 3 bytes = Ok (mkInfo false 2 4 2 [([102; 97], (0, 1)); ([99; 111; 108], (1, 4))] [([119], (0, 2))], sl).
+Proof.
+  cbv zeta.
+  assert (K1 : Forall wf_key [([102; 97], 1); ([99; 111; 108], 3)]).
+  { repeat constructor; try discriminate; vm_compute; intuition discriminate. }
+  assert (K2 : Forall wf_key [([119], 2)]).
+  { repeat constructor; try discriminate; vm_compute; intuition discriminate. }
+  assert (U : wf_user user0) by (repeat split).
+  assert (O : wf_offs offs0 = true) by (vm_compute; reflexivity).
+  assert (T : Forall (wf_tstream 4 2) [mkStream [[1; 2; 3; 4; 5; 6; 7]; [8; 9; 10; 11; 12; 13; 14]] [15; 16];
+             mkStream [[21; 22; 23; 24; 25; 26; 2143289344]] [4286578688; 0]]).
+  { repeat constructor; try discriminate; unfold f32_ok; cbn; lia. }
+  split; [exact O|]. split; [exact U|]. split; [exact K1|]. split; [exact K2|]. split; [exact T|].
+  set (sl := [mkStream [[1; 2; 3; 4; 5; 6; 7]; [8; 9; 10; 11; 12; 13; 14]] [15; 16];
+              mkStream [[21; 22; 23; 24; 25; 26; 2143289344]] [4286578688; 0]]) in *.
+  set (skeys := [([102; 97], 1); ([99; 111; 108], 3)]) in *. set (pkeys := [([119], 2)]) in *.
+  assert (Hne : sl <> []) by discriminate.
+  assert (Hn : zlen sl < 2 ^ 31) by (cbn; lia).
+  assert (N1 : NoDup (map fst skeys)).
+  { repeat constructor; cbn; intuition discriminate. }
+  assert (N2 : NoDup (map fst pkeys)).
+  { repeat constructor; cbn; intuition discriminate. }
+  destruct (trk_roundtrip_struct offs0 user0 skeys pkeys sl [9; 9; 9] O U Hne Hn K1 K2 N1 N2
+              ltac:(cbn; lia) ltac:(cbn; lia) ltac:(cbn; lia) ltac:(cbn; lia) T) as (bytes & E1 & E2).
+  exists bytes. split; [exact E1|exact E2].
+Qed.
